@@ -310,7 +310,7 @@ pub fn run_isolated(prop: &str, trace: &Trace) -> Result<Option<String>, String>
         match child.try_wait() {
             Ok(Some(st)) => break Some(st),
             Ok(None) => {
-                if t0.elapsed() > Duration::from_secs(20) {
+                if t0.elapsed() > Duration::from_secs(8) {
                     let _ = child.kill();
                     let _ = child.wait();
                     break None;
@@ -552,7 +552,7 @@ pub fn run_batch(prop: &dyn Property, prop_id: &str, opts: &CheckOpts) -> Batch 
         }
         // watchdog
         for s in slots.iter_mut() {
-            if !s.done && !s.got_result && s.last_index.is_some() && s.last_time.elapsed() > Duration::from_secs(20) {
+            if !s.done && !s.got_result && s.last_index.is_some() && s.last_time.elapsed() > Duration::from_secs(8) {
                 let _ = s.child.kill(); // SIGKILL -> reported as hang through Eof
                 s.last_time = Instant::now();
             }
